@@ -488,21 +488,75 @@ func c16r5(w *World, rr *RuleRun) {
 	q := w.P.Func("(*Server).Query")
 	argsT := w.P.NamedType("krpc", "MsgArgs")
 	lit := w.literalStores(sap, argsT)
-	for field, param := range map[string]string{"ImpliedPort": "impliedPort", "Token": "token"} {
-		v := w.TS.Of(lit[field])
-		rr.Oblige(shortFuncName(sap), "announce_peer argument "+field+" is the "+param+" parameter", w.P.Pos(sap.Pos()), lit[field] != nil && termEq(v, w.ParamTerm(sap, param)), field+" ← "+trunc(v.String(), 100))
+	// the parameters are found by type (their names and grouping are the maintainer's business): the
+	// token is the string parameter, the info-hash the int160 one, the node the Addr one; port and
+	// implied_port are an int and a bool parameter, or the fields of an AnnouncePeerOpts parameter
+	optsT := w.P.NamedType("", "AnnouncePeerOpts")
+	portF := w.P.Field("", "AnnouncePeerOpts", "Port")
+	impF := w.P.Field("", "AnnouncePeerOpts", "ImpliedPort")
+	var tokP, ihP, nodeP, portP, impP, optsP *ssa.Parameter
+	for _, pm := range sap.Params[1:] {
+		switch {
+		case types.Identical(pm.Type(), optsT):
+			optsP = pm
+		case strings.HasSuffix(pm.Type().String(), "int160.T"):
+			ihP = pm
+		case relTypeString(pm.Type()) == "Addr":
+			nodeP = pm
+		default:
+			if bt, ok := pm.Type().Underlying().(*types.Basic); ok {
+				switch {
+				case bt.Kind() == types.String && tokP == nil:
+					tokP = pm
+				case bt.Kind() == types.Int && portP == nil:
+					portP = pm
+				case bt.Kind() == types.Bool && impP == nil:
+					impP = pm
+				}
+			}
+		}
 	}
+	if tokP == nil || ihP == nil || nodeP == nil || (optsP == nil && (portP == nil || impP == nil)) {
+		rr.Broken("Server.announcePeer: parameters not recognised by type (token %v, info-hash %v, node %v, port %v, implied %v, opts %v)", tokP != nil, ihP != nil, nodeP != nil, portP != nil, impP != nil, optsP != nil)
+		return
+	}
+	fromOpts := func(v *Term, f *types.Var) bool {
+		if optsP == nil {
+			return false
+		}
+		ok := false
+		po := w.TS.Of(optsP)
+		v.Walk(func(x *Term) bool {
+			if isFieldTerm(x, f) && (termEq(x.Args[0], po) || (po.Op == OpDeref && termEq(x.Args[0], po.Args[0])) || strings.Contains(x.Args[0].String(), optsP.Name()+"@")) {
+				ok = true
+			}
+			return !ok
+		})
+		return ok
+	}
+	iv := w.TS.Of(lit["ImpliedPort"])
+	rr.Oblige(shortFuncName(sap), "announce_peer argument ImpliedPort is the implied-port flag the caller passed", w.P.Pos(sap.Pos()), lit["ImpliedPort"] != nil && ((impP != nil && termEq(iv, w.TS.Of(impP))) || (isFieldTerm(iv, impF) && fromOpts(iv, impF))), "ImpliedPort ← "+trunc(iv.String(), 100))
+	tv := w.TS.Of(lit["Token"])
+	rr.Oblige(shortFuncName(sap), "announce_peer argument Token is the token parameter", w.P.Pos(sap.Pos()), lit["Token"] != nil && termEq(tv, w.TS.Of(tokP)), "Token ← "+trunc(tv.String(), 100))
 	ih := w.TS.Of(lit["InfoHash"])
-	rr.Oblige(shortFuncName(sap), "announce_peer argument InfoHash is the infoHash parameter", w.P.Pos(sap.Pos()), lit["InfoHash"] != nil && ih.Contains(w.ParamTerm(sap, "infoHash")), "InfoHash ← "+trunc(ih.String(), 100))
+	rr.Oblige(shortFuncName(sap), "announce_peer argument InfoHash is the infoHash parameter", w.P.Pos(sap.Pos()), lit["InfoHash"] != nil && ih.Contains(w.TS.Of(ihP)), "InfoHash ← "+trunc(ih.String(), 100))
 	pt := w.TS.Of(lit["Port"])
-	portP := w.ParamTerm(sap, "port")
-	okPort := lit["Port"] != nil && (pt.Op == OpAddr && termEq(pt.Args[0], portP) || pt.Contains(portP) || strings.Contains(pt.String(), "port@"))
-	rr.Oblige(shortFuncName(sap), "announce_peer argument Port is the port parameter", w.P.Pos(sap.Pos()), okPort, "Port ← "+trunc(pt.String(), 100))
+	okPort := false
+	if lit["Port"] != nil {
+		if portP != nil {
+			pp := w.TS.Of(portP)
+			okPort = pt.Op == OpAddr && termEq(pt.Args[0], pp) || pt.Contains(pp) || strings.Contains(pt.String(), portP.Name()+"@")
+		}
+		if !okPort {
+			okPort = fromOpts(pt, portF)
+		}
+	}
+	rr.Oblige(shortFuncName(sap), "announce_peer argument Port is the port the caller passed", w.P.Pos(sap.Pos()), okPort, "Port ← "+trunc(pt.String(), 100))
 	for _, site := range w.CallsIn(sap, q, false) {
 		c := callInstrCommon(site)
 		node := w.TS.Of(c.Args[2])
 		meth := w.TS.Of(c.Args[3])
-		rr.At(w, site, "the announce is sent as announce_peer to the node parameter", termEq(node, w.ParamTerm(sap, "node")) && meth.IsConst(`"announce_peer"`), "to "+node.String()+" method "+meth.String())
+		rr.At(w, site, "the announce is sent as announce_peer to the node parameter", termEq(node, w.TS.Of(nodeP)) && meth.IsConst(`"announce_peer"`), "to "+node.String()+" method "+meth.String())
 	}
 	// the deprecated wrapper Server.Announce(infoHash, port, impliedPort, ...) configures exactly what
 	// it was given: every AnnouncePeerOpts it builds takes Port from its int parameter and
@@ -542,13 +596,27 @@ func c16r5(w *World, rr *RuleRun) {
 	// Announce.announcePeer passes its own info-hash and configured options
 	ap := w.P.Func("(*Announce).announcePeer")
 	ihF := w.P.Field("", "Announce", "infoHash")
-	portF := w.P.Field("", "AnnouncePeerOpts", "Port")
-	impF := w.P.Field("", "AnnouncePeerOpts", "ImpliedPort")
+	optsF := w.P.Field("", "Announce", "announcePeerOpts")
 	for _, site := range w.CallsIn(ap, sap, true) {
 		c := callInstrCommon(site)
-		rr.At(w, site, "the announce names the announce's own info-hash", isFieldTerm(w.TS.Of(c.Args[3]), ihF), trunc(w.TS.Of(c.Args[3]).String(), 80))
-		rr.At(w, site, "the announce carries the configured port", isFieldTerm(w.TS.Of(c.Args[4]), portF), trunc(w.TS.Of(c.Args[4]).String(), 80))
-		rr.At(w, site, "the announce carries the configured implied_port flag", isFieldTerm(w.TS.Of(c.Args[6]), impF), trunc(w.TS.Of(c.Args[6]).String(), 80))
+		for i, pm := range sap.Params {
+			if i >= len(c.Args) {
+				break
+			}
+			at := w.TS.Of(c.Args[i])
+			switch pm {
+			case ihP:
+				rr.At(w, site, "the announce names the announce's own info-hash", isFieldTerm(at, ihF), trunc(at.String(), 80))
+			case portP:
+				rr.At(w, site, "the announce carries the configured port", isFieldTerm(at, portF), trunc(at.String(), 80))
+			case impP:
+				rr.At(w, site, "the announce carries the configured implied_port flag", isFieldTerm(at, impF), trunc(at.String(), 80))
+			case optsP:
+				whole := at.Op == OpDeref && len(at.Args) == 1 && isFieldTerm(at.Args[0], optsF)
+				rr.At(w, site, "the announce carries the configured port", whole, trunc(at.String(), 80))
+				rr.At(w, site, "the announce carries the configured implied_port flag", whole, trunc(at.String(), 80))
+			}
+		}
 	}
 }
 
